@@ -514,27 +514,20 @@ func c08ParseString(r *Run, s string) {
 // ---------------------------------------------------------------------------
 // locators
 
-// 5'UTR and 3'UTR are INSDC feature keys that start with a number (known finding K8A)
-var c08Keys = []string{"gene", "CDS", "exon", "misc_feature", "source", "5'UTR", "3'UTR"}
+// 5'UTR and 3'UTR are INSDC feature keys that start with a number; together with 3..5xyz
+// and 12abc they begin with a location prefix (repaired finding F9: such a string is a
+// selector, not the point / range it starts with)
+var c08PrefixKeys = []string{"5'UTR", "3'UTR", "3..5xyz", "12abc"}
+var c08Keys = []string{"gene", "CDS", "exon", "misc_feature", "source", "5'UTR", "3'UTR", "3..5xyz", "12abc"}
 
-// isK8A: the shape of known finding K8A — the specifier is not a modifier and
-// tryLocation accepts a proper prefix of it (here: selectors that start with a number).
-func isK8A(spec string) bool {
-	if _, err := gts.AsModifier(spec); err == nil {
-		return false
-	}
-	l, ok := gts.VerifTryLocation(spec)
-	return ok && l.String() != spec
-}
-
-// withUTRKeys renames some features to 5'UTR / 3'UTR so that selectors on those keys have
+// withUTRKeys renames some features to the keys that begin with a location prefix so that selectors on those keys have
 // something to select.
 func withUTRKeys(r *rng, seq gts.Sequence) gts.Sequence {
 	ff := make(gts.FeatureSlice, len(seq.Features()))
 	copy(ff, seq.Features())
 	for i := range ff {
 		if r.intn(3) == 0 {
-			ff[i].Key = []string{"5'UTR", "3'UTR"}[r.intn(2)]
+			ff[i].Key = r.pick(c08PrefixKeys)
 		}
 	}
 	return gts.New(nil, ff, append([]byte(nil), seq.Bytes()...))
@@ -707,6 +700,13 @@ func c08Locator(r *Run, spec c08Spec, m gts.Modifier, seq gts.Sequence) {
 	line := "locator.apply " + encStr(s) + " " + qs
 	out := r.op(line)
 	r.count("locator/" + spec.kind + map[bool]string{true: "@mod", false: ""}[m != nil])
+	if spec.kind == "selector" {
+		for _, k := range c08PrefixKeys {
+			if strings.HasPrefix(spec.text, k) {
+				r.count("locator/selector-with-location-prefix")
+			}
+		}
+	}
 	r.eval("l|"+s+"|"+qs, len(seq.Features()) > 0 || spec.kind != "selector")
 	if out == "PANIC" || out == "ERR" {
 		r.fail(Failure{Oracle: "an assembled locator is accepted and does not panic", Op: line, Got: out})
@@ -721,11 +721,6 @@ func c08Locator(r *Run, spec c08Spec, m gts.Modifier, seq gts.Sequence) {
 	if w := encRegs(want); out != w {
 		f := Failure{Oracle: "X@M denotes the regions of X each resized by M (bare modifier: whole sequence; location: itself; selector: matching features in table order)",
 			Op: line, Got: out, Want: w}
-		// known finding K8A: same shape and same misbehaviour (the numeric prefix read as a location)
-		if spec.kind == "selector" && isK8A(spec.text) && out == encRegs(locatorKind(s, true).apply(copySeq(seq))) {
-			f.Finding = "K8A"
-			r.count("locator/K8A")
-		}
 		r.fail(f)
 	}
 }
@@ -791,6 +786,7 @@ func mutate(r *rng, s []byte, alpha []byte) []byte {
 func propC08(r *Run) {
 	thorough := r.tier == "thorough"
 	r.exhaustive = true
+	c08Strand(r)
 
 	// (1) Apply: every form, offsets -4..4, pairs over a small window (both orientations, empty pairs)
 	for _, m := range allMods(1) {
@@ -975,5 +971,54 @@ func propC08(r *Run) {
 	for _, s := range []string{"", "@", "@@", "^@^", "@^", "gene@", "gene@@^", "gene@^@$", "5@^+1@$-1", "@^@$", "^..$@^@^", "3..5x", "12abc", "3..", "<3..5", "3..>5>", "complement(3..5", "complement(complement(3..5))",
 		"complement(7)", "^..$@^..$", "/", "//", "gene/", "gene//note=a", "gene/note=a/product=b", `ge\/ne/note`, "gene/note=(", "gene/=a", "5@$-1..$", "^+1x"} {
 		c08LocatorString(r, s, genSeq(r.rng, 12, 5, 1))
+	}
+}
+
+// c08Strand: "either strand": the complement of a region reads the same residues in the
+// opposite order on the opposite strand — for every number of segments (odd and even) and one
+// level of nesting; this is what makes ^ the 5' end in the direction of the strand.
+func c08Strand(r *Run) {
+	n := 1500
+	if r.tier == "thorough" {
+		n = 15000
+	}
+	for t := 0; t < n; t++ {
+		k := 1 + t%5
+		segs := make(gts.Regions, 0, k)
+		pos := r.rng.intn(3)
+		for j := 0; j < k; j++ {
+			ln := r.rng.rangeInt(1, 4)
+			var el gts.Region = gts.Segment{pos, pos + ln}
+			if r.rng.intn(3) == 0 {
+				el = gts.Segment{pos + ln, pos}
+			}
+			if r.rng.intn(6) == 0 {
+				el = gts.Regions{gts.Segment{pos, pos + 1}, gts.Segment{pos + ln + 1, pos + ln + 2}}
+				pos++
+			}
+			segs = append(segs, el)
+			pos += ln + r.rng.intn(3)
+		}
+		var reg gts.Region = segs
+		line := "reg.complement " + encReg(reg)
+		out := r.op(line)
+		r.count(fmt.Sprintf("strand/segments%d", k))
+		if out == "PANIC" {
+			r.fail(Failure{Oracle: "complement of a region never panics", Op: line, Got: out})
+			continue
+		}
+		d := implRegDen(reg)
+		c := implRegDen(reg.Complement())
+		r.eval(line, len(d) > 0)
+		ok := len(c) == len(d)
+		for x := 0; ok && x < len(d); x++ {
+			if c[len(d)-1-x].x != d[x].x || c[len(d)-1-x].rev == d[x].rev {
+				ok = false
+			}
+		}
+		if !ok {
+			r.fail(Failure{Oracle: "the complement of a region reads the same residues in the opposite order on the opposite strand", Op: line,
+				Got: encReg(reg.Complement()) + " den=" + denStr(c), Want: "reverse of " + denStr(d)})
+		}
 	}
 }
